@@ -116,7 +116,7 @@ func genBucket(r *simrt.Rand, c *GenCfg, sym string, i int) *Bucket {
 	idpos := r.Intn(ncols)
 	for j := 0; j < ncols; j++ {
 		if j == idpos {
-			b.Cols = append(b.Cols, Col{"Id", "i8"})
+			b.Cols = append(b.Cols, Col{Name: "Id", Typ: "i8"})
 			continue
 		}
 		typ := "f4"
@@ -125,7 +125,7 @@ func genBucket(r *simrt.Rand, c *GenCfg, sym string, i int) *Bucket {
 		} else {
 			typ = []string{"f4", "f8", "i4", "i8"}[r.Intn(4)]
 		}
-		b.Cols = append(b.Cols, Col{fmt.Sprintf("C%d", j), typ})
+		b.Cols = append(b.Cols, Col{Name: fmt.Sprintf("C%d", j), Typ: typ})
 	}
 	return b
 }
@@ -231,10 +231,13 @@ func Gen(seed uint64, c *GenCfg) *Workload {
 	w.Node.WALRotateInterval = 1 + r.Intn(5)
 	w.Node.DisableVarComp = r.Pct(15)
 	w.Sim = simrt.Config{Seed: seed ^ 0xABCDEF, PreemptPct: 0, ShuffleMap: r.Pct(50)}
-	switch r.Intn(3) {
+	// the production depth (three 1,000,000-slot channels, ~60 MB zeroed per node
+	// start) is sampled in 1 run of 12; it is semantically neutral for these
+	// workloads but dominates the cost when 16 workers run side by side
+	switch r.Intn(12) {
 	case 0:
 		w.Knobs["WriteChannelCommandDepth"] = 1000000
-	case 1:
+	case 1, 2, 3, 4, 5:
 		w.Knobs["WriteChannelCommandDepth"] = 4096
 	default:
 		w.Knobs["WriteChannelCommandDepth"] = 1024
